@@ -235,8 +235,7 @@ func init() {
 			panic(goPanic{"iterator.Key on invalid iterator"})
 		}
 		k := it.keys[it.pos]
-		n := Len(it.strip)
-		return ret1(&BytesV{T: Substr(k, n, Sub(Len(k), n)), NilT: TFalse})
+		return ret1(&BytesV{T: stripPrefixT(k, it.strip), NilT: TFalse})
 	})
 	reg("opaque:iterator.Value", func(cc *CallCtx, a []Value) []Outcome {
 		it, _ := itOf(cc, a[0])
@@ -284,9 +283,13 @@ func init() {
 			}
 			if b.Blob.Typ != nil {
 				if !types.Identical(b.Blob.Typ, et) {
-					// decoding a record of another type: arbitrary result + observable event
+					// decoding a record of another type: protobuf matches fields by number and wire type
 					cc.S.W.Ghost["TypeConfusion"] = TTrue
-					throwf("type confusion: %s decoded as %s", b.Blob.Typ, et)
+					cc.S.store(p, cc.E.thaw(cc.S, crossDecode(b.Blob.Typ, b.Blob.Val, et)))
+					if must {
+						return retNone()
+					}
+					return ret1(okRet)
 				}
 				cc.S.store(p, cc.E.thaw(cc.S, b.Blob.Val))
 				if must {
@@ -610,8 +613,9 @@ func storeIter(cc *CallCtx, v *storeView, pfx *Term, rev bool) []Outcome {
 	}
 	// collect live entries: newest write per key wins; keys may alias symbolically -> require syntactic distinctness decided
 	type ent struct {
-		k *Term
-		v *BytesV
+		k  *Term
+		v  *BytesV
+		in *Term
 	}
 	var ents []ent
 	var seen []*Term
@@ -624,10 +628,11 @@ func storeIter(cc *CallCtx, v *storeView, pfx *Term, rev bool) []Outcome {
 				break
 			}
 			if eq != TFalse {
-				// ask the solver
+				// ask the solver; if both are possible, split the path on key equality and redo the instruction
 				if cc.E.feasible(cc.S, eq) != Unsat {
 					if cc.E.feasible(cc.S, Not(eq)) != Unsat {
-						throwf("iteration over store %s with possibly-aliasing keys", v.store)
+						redo := func(st *State) { st.top().PC-- }
+						return []Outcome{{Cond: eq, Do: redo}, {Cond: Not(eq), Do: redo}}
 					}
 					shadow = true
 					break
@@ -643,50 +648,72 @@ func storeIter(cc *CallCtx, v *storeView, pfx *Term, rev bool) []Outcome {
 			continue
 		}
 		if hp != TTrue {
-			if cc.E.feasible(cc.S, Not(hp)) != Unsat {
-				if cc.E.feasible(cc.S, hp) == Unsat {
-					continue
-				}
-				throwf("iteration: key may or may not have prefix")
+			hp = cc.E.decide(cc.S, hp)
+			if hp == TFalse {
+				continue
 			}
 		}
-		ents = append(ents, ent{n.key, n.val.(*BytesV)})
+		ents = append(ents, ent{n.key, n.val.(*BytesV), hp})
 	}
-	// order: fork on the abstract total order between symbolic keys
-	n := len(ents)
-	if n > 4 {
-		throwf("iteration over %d entries exceeds bound", n)
+	if len(ents) > 4 {
+		throwf("iteration over %d entries exceeds bound", len(ents))
 	}
-	perms := permutations(n)
+	// undetermined prefix membership: one case per subset; order: fork on the abstract total order
+	var undet []int
+	for i, en := range ents {
+		if en.in != TTrue {
+			undet = append(undet, i)
+		}
+	}
 	var outs []Outcome
-	for _, p := range perms {
+	for mask := 0; mask < 1<<uint(len(undet)); mask++ {
 		cond := TTrue
-		for i := 0; i+1 < n; i++ {
-			cond = And(cond, StrLt(ents[p[i]].k, ents[p[i+1]].k))
-		}
-		if cond == TFalse {
-			continue
-		}
-		pp := p
-		res := cc.Res
-		outs = append(outs, Outcome{Cond: cond, Do: func(st *State) {
-			it := &iterState{strip: v.prefix}
-			for _, i := range pp {
-				it.keys = append(it.keys, ents[i].k)
-				it.vals = append(it.vals, ents[i].v)
+		var sel []ent
+		excluded := map[int]bool{}
+		for bi, idx := range undet {
+			if mask&(1<<uint(bi)) != 0 {
+				cond = And(cond, ents[idx].in)
+			} else {
+				cond = And(cond, Not(ents[idx].in))
+				excluded[idx] = true
 			}
-			if rev {
-				for i, j := 0, len(it.keys)-1; i < j; i, j = i+1, j-1 {
-					it.keys[i], it.keys[j] = it.keys[j], it.keys[i]
-					it.vals[i], it.vals[j] = it.vals[j], it.vals[i]
+		}
+		for i, en := range ents {
+			if !excluded[i] {
+				sel = append(sel, en)
+			}
+		}
+		n := len(sel)
+		for _, p := range permutations(n) {
+			c2 := cond
+			for i := 0; i+1 < n; i++ {
+				c2 = And(c2, StrLt(sel[p[i]].k, sel[p[i+1]].k))
+			}
+			if c2 == TFalse {
+				continue
+			}
+			pp := p
+			selc := sel
+			res := cc.Res
+			outs = append(outs, Outcome{Cond: c2, Do: func(st *State) {
+				it := &iterState{strip: v.prefix}
+				for _, i := range pp {
+					it.keys = append(it.keys, selc[i].k)
+					it.vals = append(it.vals, selc[i].v)
 				}
-			}
-			id := st.alloc(&OpaqueV{Kind: "iterstate", Data: it})
-			if res != nil {
-				f := st.top()
-				f.Locals[f.Info.idx[res]] = opq("iterator", id)
-			}
-		}})
+				if rev {
+					for i, j := 0, len(it.keys)-1; i < j; i, j = i+1, j-1 {
+						it.keys[i], it.keys[j] = it.keys[j], it.keys[i]
+						it.vals[i], it.vals[j] = it.vals[j], it.vals[i]
+					}
+				}
+				id := st.alloc(&OpaqueV{Kind: "iterstate", Data: it})
+				if res != nil {
+					f := st.top()
+					f.Locals[f.Info.idx[res]] = opq("iterator", id)
+				}
+			}})
+		}
 	}
 	return outs
 }
@@ -844,4 +871,70 @@ func allDefault(v Value) *Term {
 		return MkBool(x.T == nil)
 	}
 	return TFalse
+}
+
+
+// crossDecode models gogoproto decoding the encoding of a src-typed record into a dst-typed one:
+// a destination field receives the source field with the same field number when the wire types agree,
+// everything else stays at its zero value (unknown fields are skipped).
+func crossDecode(srcT types.Type, src Value, dstT types.Type) Value {
+	ss, ok1 := srcT.Underlying().(*types.Struct)
+	ds, ok2 := dstT.Underlying().(*types.Struct)
+	sv, ok3 := src.(*StructV)
+	if !ok1 || !ok2 || !ok3 {
+		throwf("type confusion between non-struct records %s / %s", srcT, dstT)
+	}
+	tagOf := func(st *types.Struct, i int) (wire string, num string, ok bool) {
+		tag := st.Tag(i)
+		j := strings.Index(tag, `protobuf:"`)
+		if j < 0 {
+			return "", "", false
+		}
+		rest := tag[j+10:]
+		k := strings.Index(rest, `"`)
+		if k < 0 {
+			return "", "", false
+		}
+		parts := strings.Split(rest[:k], ",")
+		if len(parts) < 2 {
+			return "", "", false
+		}
+		return parts[0], parts[1], true
+	}
+	out := make([]Value, ds.NumFields())
+	for i := 0; i < ds.NumFields(); i++ {
+		out[i] = zeroFrozen(ds.Field(i).Type())
+		dw, dn, ok := tagOf(ds, i)
+		if !ok {
+			continue
+		}
+		for j := 0; j < ss.NumFields(); j++ {
+			sw, sn, ok := tagOf(ss, j)
+			if !ok || sn != dn || sw != dw {
+				continue
+			}
+			if types.Identical(ss.Field(j).Type(), ds.Field(i).Type()) {
+				out[i] = sv.F[j]
+			} else {
+				throwf("type confusion: field %s of %s into %s with different Go types", sn, srcT, dstT)
+			}
+		}
+	}
+	return &StructV{out}
+}
+
+
+// stripPrefixT removes the (known) prefix p from k, structurally when possible.
+func stripPrefixT(k, p *Term) *Term {
+	if p.IsConst() {
+		if k.IsConst() && strings.HasPrefix(k.SV, p.SV) {
+			return MkStr(k.SV[len(p.SV):])
+		}
+		if k.Op == "str.++" && k.Args[0].IsConst() && strings.HasPrefix(k.Args[0].SV, p.SV) {
+			rest := append([]*Term{MkStr(k.Args[0].SV[len(p.SV):])}, k.Args[1:]...)
+			return Concat(rest...)
+		}
+	}
+	n := Len(p)
+	return Substr(k, n, Sub(Len(k), n))
 }
